@@ -1295,10 +1295,116 @@ fn gen_dir(r: &mut Rng, plain: bool, prefix: &str, depth: usize, out: &mut Vec<E
 
 /// `plain` trees have no symbolic links and only searchable directories (so the oracles are
 /// consistent in the sense of the model's `WF`); the others have both.
+/// Chains of symbolic links across directories: a link `l` in directory A whose target is a link `k`
+/// in another directory B (relative `../B/k` or absolute `/t/B/k`), `k` having a *relative* target
+/// that is looked up in B — a name that exists in B but not in A, in A but not in B, in both or in
+/// neither.  Every hop has to be resolved in the directory of the link being followed.  Also longer
+/// chains through a third directory, loops, and chains around the bound of 8 hops.
+fn gen_link_chains(r: &mut Rng, out: &mut Vec<Entry>) {
+    let has = |out: &Vec<Entry>, n: &str| out.iter().any(|e| matches!(e, Entry::File(p) | Entry::Dir(p, _) | Entry::Link(p, _) if p == n));
+    let mut dirs: Vec<String> = vec![String::new()];
+    dirs.extend(out.iter().filter_map(|e| match e {
+        Entry::Dir(p, _) if p.matches('/').count() < 2 => Some(p.clone()),
+        _ => None,
+    }));
+    if dirs.len() < 2 {
+        out.push(Entry::Dir("d".into(), 0o755));
+        out.push(Entry::File("d/a".into()));
+        dirs.push("d".into());
+    }
+    let inside = |d: &str, n: &str| if d.is_empty() { n.to_string() } else { format!("{d}/{n}") };
+    // the way from directory `a` to directory `b`, as a link in `a` has to write it
+    let rel = |a: &str, b: &str| -> String {
+        let up = if a.is_empty() { 0 } else { a.matches('/').count() + 1 };
+        let mut s = "../".repeat(up);
+        if !b.is_empty() {
+            s.push_str(b);
+            s.push('/');
+        }
+        s
+    };
+    let children = |out: &Vec<Entry>, d: &str| -> Vec<String> {
+        let pre = if d.is_empty() { String::new() } else { format!("{d}/") };
+        out.iter()
+            .filter_map(|e| {
+                let p = match e {
+                    Entry::File(p) | Entry::Dir(p, _) | Entry::Link(p, _) => p,
+                };
+                let rest = p.strip_prefix(&pre)?;
+                if rest.contains('/') || rest.is_empty() { None } else { Some(rest.to_string()) }
+            })
+            .collect()
+    };
+    for _ in 0..1 + r.below(3) {
+        let b = r.pick(&dirs).clone();
+        let kname = *r.pick(&["k", "l", "ab", "b"]);
+        let kpath = inside(&b, kname);
+        if has(out, &kpath) {
+            continue;
+        }
+        // what `k` points to: a plain relative name, looked up in B
+        let mut pool: Vec<String> = children(out, &b);
+        for a in dirs.iter().take(4) {
+            pool.extend(children(out, a));
+        }
+        pool.extend(["a", "x", "nowhere"].map(String::from));
+        let ktarget = match r.below(10) {
+            0 => {
+                // a third directory
+                let c = r.pick(&dirs).clone();
+                let m = inside(&c, "m");
+                if !has(out, &m) {
+                    out.push(Entry::Link(m, r.pick(&pool).clone()));
+                }
+                format!("{}m", rel(&b, &c))
+            }
+            _ => r.pick(&pool).clone(),
+        };
+        out.push(Entry::Link(kpath, ktarget));
+        // the links that lead to `k`, in one to three other directories
+        let lname = *r.pick(&["l", "k", "a", "-"]);
+        for _ in 0..1 + r.below(3) {
+            let a = r.pick(&dirs).clone();
+            if a == b {
+                continue;
+            }
+            let lpath = inside(&a, lname);
+            if has(out, &lpath) {
+                continue;
+            }
+            let target = if r.chance(1, 5) { format!("/t/{}", inside(&b, kname)) } else { format!("{}{kname}", rel(&a, &b)) };
+            out.push(Entry::Link(lpath, target));
+        }
+        if r.chance(1, 8) {
+            // a loop between two directories
+            let a = r.pick(&dirs).clone();
+            let (p, q) = (inside(&a, "o"), inside(&b, "o"));
+            if a != b && !has(out, &p) && !has(out, &q) {
+                out.push(Entry::Link(p, format!("{}o", rel(&a, &b))));
+                out.push(Entry::Link(q, format!("{}o", rel(&b, &a))));
+            }
+        }
+    }
+    if r.chance(1, 6) {
+        // chains of 6 … 9 links in one directory: `fstatat` gives up after 8 look-ups
+        let d = r.pick(&dirs).clone();
+        let n = 6 + r.below(4);
+        if !(1..=n).any(|i| has(out, &inside(&d, &format!("c{i}")))) {
+            for i in 1..n {
+                out.push(Entry::Link(inside(&d, &format!("c{i}")), format!("c{}", i + 1)));
+            }
+            out.push(Entry::File(inside(&d, &format!("c{n}"))));
+        }
+    }
+}
+
 fn gen_tree(r: &mut Rng) -> Vec<Entry> {
     let mut out = vec![];
     let plain = r.chance(11, 20);
     gen_dir(r, plain, "", 0, &mut out);
+    if !plain && r.chance(2, 3) {
+        gen_link_chains(r, &mut out);
+    }
     if r.chance(1, 10) {
         // names for patterns with a slash between brackets (`a[b/c]d` is the path `a[b` / `c]d`)
         let has = |out: &Vec<Entry>, n: &str| out.iter().any(|e| matches!(e, Entry::File(p) | Entry::Dir(p, _) | Entry::Link(p, _) if p == n));
